@@ -213,9 +213,38 @@ func genPacket(r *Rng) *mpkt {
 	return m
 }
 
+// extreme counts: what is omitted costs nothing, what is encoded is counted exactly (no narrow integer anywhere)
+func extremePacket(r *Rng, i int) *mpkt {
+	m := genPacket(r)
+	m.attrs = nil
+	switch i % 4 {
+	case 0: // 258..300 maximal attributes: beyond 65535 bytes, refused
+		for j, n := 0, 258+r.Intn(43); j < n; j++ {
+			m.attrs = append(m.attrs, aop{0, 1 + r.Intn(3), r.Bytes(253)})
+		}
+	case 1: // thousands of attributes that are not encoded, around a few that are
+		for j, n := 0, 2039+r.Intn(1500); j < n; j++ {
+			if r.Intn(40) == 0 {
+				m.attrs = append(m.attrs, aop{0, 1 + r.Intn(250), r.Bytes(r.Intn(5))})
+			} else {
+				m.attrs = append(m.attrs, aop{0, r.Pick(-1, 256, 300, 1000), r.Bytes(r.Intn(2))})
+			}
+		}
+	case 2: // exactly 2038 empty encodable attributes: 4096 bytes, accepted
+		for j := 0; j < 2038; j++ {
+			m.attrs = append(m.attrs, aop{0, 1 + r.Intn(250), nil})
+		}
+	case 3: // 2039..2041: refused
+		for j, n := 0, 2039+r.Intn(3); j < n; j++ {
+			m.attrs = append(m.attrs, aop{0, 1 + r.Intn(250), nil})
+		}
+	}
+	return m
+}
+
 func init() {
 	props["C01"] = func(c *Ctx) {
-		c.Res.Rule = "byte strings: arbitrary 0..4200 bytes, and structured header+TLV datagrams with one mutation (Length in {0,19,20,n-1,n+1,4095,4096,4097,65535}, last TLV length +-1, single byte overwritten, trailing padding, attributes continuing past Length, truncation, dangling byte); Packet values with codes incl. -1/256/1000, types {-1,0,1,26,255,256,300}, value sizes {0,1,252..255}, totals around 4096 built from 253-byte fillers. Parse/ParseAttributes/MarshalBinary/Encode compared with model and spec oracle; every successful marshal is parsed back and every accepted datagram re-marshalled by the implementation itself. non-trivial = not rejected by the first length test"
+		c.Res.Rule = "byte strings: arbitrary 0..4200 bytes, and structured header+TLV datagrams with one mutation (Length in {0,19,20,n-1,n+1,4095,4096,4097,65535}, last TLV length +-1, single byte overwritten, trailing padding, attributes continuing past Length, truncation, dangling byte); Packet values with codes incl. -1/256/1000, types {-1,0,1,26,255,256,300}, value sizes {0,1,252..255}, totals around 4096 built from 253-byte fillers, 258..300 maximal attributes (> 65535 bytes), 2038/2039 empty attributes, thousands of unencodable ones. Parse/ParseAttributes/MarshalBinary/Encode compared with model and spec oracle; every successful marshal is parsed back and every accepted datagram re-marshalled by the implementation itself. non-trivial = not rejected by the first length test"
 		r := c.Rng.Fork()
 		sec := []byte("s3cr3t")
 		n := c.N(4000, 120000)
@@ -265,6 +294,8 @@ func init() {
 			m := genPacket(r)
 			if i < 25 {
 				m = exactPacket(r, 4094+i%5) // the boundary itself: 4094..4098 bytes
+			} else if i < 25+c.N(4, 48) {
+				m = extremePacket(r, i)
 			}
 			t, w := implBytesRes(func() ([]byte, error) { return m.packet().MarshalBinary() })
 			tag := "marshal-err"
